@@ -47,7 +47,10 @@ def register(reg, S):
             ("bounds", f"start_iteration_index <= _it and _it <= {n} - 1"),
             ("below", "self.events[_it].tick <= tick"),
         ])},
-        props=["C01", "C03", "C11", "C12", "C15", "C16"]))
+        props=["C01", "C03", "C11", "C12", "C15", "C16"],
+        # returning instead of raising (a hint beyond the governing event, a negative tick, a zero tempo)
+        # is what C11 and C15 forbid; C16 relies on it for its own ValueError clauses
+        clause_props={"must-raise": ["C11", "C15", "C16"]}))
     ts_pre = [("wf-sorted", "sorted_ticks(self)"), ("hint-nonneg", "start_iteration_index >= 0"),
               ("envelope", f"ENV(self) and -{2*BIG} <= tick <= {2*BIG}")]
     reg.add(Contract(
@@ -60,7 +63,10 @@ def register(reg, S):
             ("time-is-TS", "result[0] == TS(self, tick)"),
             ("index-range", f"0 <= result[1] < {n}"),
         ],
-        props=["C01", "C03", "C11", "C12", "C15", "C16"]))
+        props=["C01", "C03", "C11", "C12", "C15", "C16"],
+        # returning instead of raising (a hint beyond the governing event, a negative tick, a zero tempo)
+        # is what C11 and C15 forbid; C16 relies on it for its own ValueError clauses
+        clause_props={"must-raise": ["C11", "C15", "C16"]}))
     reg.add(Contract(
         "chartparse.sync:BPMEvents.timestamp_at_tick_no_optimize_return",
         params=dict(self=BES, tick=INT), result=TD,
@@ -68,7 +74,8 @@ def register(reg, S):
                   ("nonempty-first0", f"{n} >= 1 and self.events[0].tick == 0 and self.resolution >= 1")],
         raises={"ValueError": "tick < 0 or self.events[gov(self, tick)].bpm <= 0"},
         ensures=[("time-is-TS", "result == TS(self, tick)")],
-        props=["C01", "C11", "C12", "C16"]))
+        props=["C01", "C11", "C12", "C15", "C16"],
+        clause_props={"must-raise": ["C11", "C15", "C16"]}))
 
     # ---------------------------------------------------------------- validators
     reg.add(Contract(
